@@ -196,8 +196,11 @@ theorem convert_eq_reference_parse_partial (q : TokReq) (hq : Plain q) : ReqEqui
   refine ⟨rfl, rfl, rfl, ?_, ?_, ?_, ?_, rfl⟩
   · simp [convert, referenceParse, hver, hnot2]
   · simp [convert, referenceParse, hver]
-  · show lowerB (lowerB (hostOf q)) = lowerB (hostOf q)
-    exact lowerB_idem _
+  · show lowerB (fhHost q) = lowerB (hostOf q)
+    unfold fhHost
+    split
+    · rfl
+    · exact lowerB_idem _
   · -- header fields, name by name
     intro k
     have hpf : pragmaFix (q.fields.filter (fun e => e.1 ≠ sHost && e.1 ≠ sTransferEncoding)) =
